@@ -370,9 +370,7 @@ def midphase_part(run, n_desc, with_instances=True):
                         "callbacks": [c["ops"] for c in desc["callbacks"]], "callback_ticks": fire[:6], "first_observations": r["obs"][:4]})
     bad = S.model_disagreements(run, fin, results, chunk=30)
     run.cov["traces_validated_against_impl"] += len(fin) - len(bad)
-    for j in bad:
-        if j in flagged:
-            continue
+    for j in [x for x in bad if x not in flagged][:2]:        # same signature: one report is printed; do not evaluate the model trace for all
         S.report_disagreement(run, fin[j], results[j], "correspondence", "Timeline/Track (callbacks changing the track list mid-phase)", extra={"part": "midphase-model"})
     if not with_instances:
         return
@@ -408,7 +406,7 @@ def midphase_part(run, n_desc, with_instances=True):
     hdr = S.HEADER + "From Isobar Require Import Sched.TimeProofs Sched.MergeProofs Sched.MergeCbProofs Props.C07.\n" + MIDCB_INSTANCE
     badi = run.coq_failing(hdr, terms, chunk=30)
     run.cov["merge_cb_theorem_instances_checked"] = run.cov.get("merge_cb_theorem_instances_checked", 0) + len(terms) - len(badi)
-    for b in badi:
+    for b in badi[:2]:
         j, jj = where[b]
         S.report_disagreement(run, fin[j], results[j], "merge-cb-instance", "Timeline/Track",
                               extra={"part": "midphase-model",
